@@ -16,7 +16,9 @@ run_demo() {
   if [ $DEMO_KIND = test ]; then
     cargo test --offline -j 8 -p epserde --test seed_demo 2>&1 | grep -E "^test result" | tail -1
   else
-    (cd SEED/demo && cargo run --offline -j 8 -q >/dev/null 2>&1; echo "demo project exit=$?")
+    if [ -x SEED/demo/run.sh ]; then (cd SEED/demo && ./run.sh >/dev/null 2>&1; echo "demo run.sh exit=$?")
+    elif [ -d SEED/demo/tests ]; then (cd SEED/demo && cargo test --offline -j 8 2>&1 | grep -E "^test result" | tail -1)
+    else (cd SEED/demo && cargo run --offline -j 8 -q >/dev/null 2>&1; echo "demo project exit=$?"); fi
   fi
 }
 echo "== demo WITHOUT the change"; WITHOUT=$(run_demo); echo "$WITHOUT"
